@@ -139,6 +139,18 @@ def cases(tier):
             s["controls"] = [dict(c, prio=p, name="c%d" % i) for i, (c, p) in enumerate(zip(cs, pr))]
             s["id"] = {"skel": skel, "pat": pat, "hyd": H, "cv": False, "controls": s["controls"]}
             out.append(s)
+        # conflicting controls on one link whose conditions overlap, under priorities that include the lowest one (0):
+        # wherever both hold, the higher priority decides
+        if skel in ("twosrc", "pumpfeed") and pat in DEM_PAIRS:
+            B2 = [a for a in A if not a.get("attr") and a["thr"] in (1.5, 4.5, 29.0)]
+            for a, b in itertools.combinations(B2, 2):
+                if a["link"] != b["link"] or a["value"] == b["value"] or chatter(a, b):
+                    continue
+                for pr in ((0, 1), (1, 0), (0, 3)) + (((3, 0), (2, 5), (6, 0)) if tier == "thorough" else ()):
+                    s = skeleton(skel, pat, H)
+                    s["controls"] = [dict(c, prio=p_, name="c%d" % i) for i, (c, p_) in enumerate(zip((a, b), pr))]
+                    s["id"] = {"skel": skel, "pat": pat, "hyd": H, "cv": False, "controls": s["controls"]}
+                    out.append(s)
         # rule time step of one second: EVERY threshold crossing then coincides with a rule evaluation instant (the two
         # scheduling paths of the presolve loop meet); single level controls and hysteresis pairs
         if skel in ("twosrc", "pumpfeed"):
@@ -157,6 +169,7 @@ def cases(tier):
                     prios = [(3,) * len(cs)]
                     if len(cs) == 2 and cs[0]["link"] == cs[1]["link"] and cs[0]["value"] != cs[1]["value"]:
                         prios.append((5, 3))
+                        prios += [(0, 1), (2, 0)]       # incl. the lowest priority, 0
                     for pr in prios:
                         s2 = clone(s)
                         s2["controls"] = [dict(c, prio=p, name="c%d" % i) for i, (c, p) in enumerate(zip(cs, pr))]
